@@ -21,7 +21,7 @@ func init() {
 	register("C12",
 		"Structural necessary conditions of C12 decided from /repo's syntax, constants and SSA — the thinnest claim of the nineteen, since the heart of C12 (correct rounding, half-unit error, monotonicity over 2^64 values) is numeric and NOT decided: (tables) the i-th multiplier of the metric table is 1000^i and of the binary table 1024^i with the SI/IEC prefix names, so the tables are non-empty, start at 1 and strictly increase; (exact) values below the first prefix are printed with an integer verb from the integer itself; (selection) the prefix loop is an ascending scan keeping the last prefix whose quotient is >= 1; (precision) for every branch of the precision switch, whole part in [L,U] with verb %.Pf gives at least three significant digits and at most five characters, U for the last prefix being floor((2^64-1)/multiplier).",
 		[]string{"fmt's %f rounding", "float64 conversion of uint64 (not decided)"},
-		ruleC12Tables, ruleC12Exact, ruleC12Selection, ruleC12Precision, ruleC12Mantissa)
+		ruleC12Tables, ruleC12Exact, ruleC12Selection, ruleC12Precision, ruleC12Mantissa, ruleC12WholePart)
 }
 
 // ---------------- C11 ----------------
@@ -562,17 +562,41 @@ func ruleC12Selection(c *Ctx) {
 	name := fnName(f)
 	n := f.Params[1]
 	var l *loop
+	descending := false
 	for _, x := range loopsOf(f) {
 		if c.rangeOverField(f, x, "prefixes") || c.rangeOverFieldAny(f, x) {
 			l = x
 		}
 	}
 	if l == nil {
-		c.violate("C12.selection", "loop", f.Pos(), name, "no ascending loop over the prefix table")
+		// a descending index loop over the table that stops at the first fitting prefix is the same selection
+		for _, x := range loopsOf(f) {
+			head := x.Head
+			iff, ok := head.Instrs[len(head.Instrs)-1].(*ssa.If)
+			if !ok {
+				continue
+			}
+			cmp, ok := iff.Cond.(*ssa.BinOp)
+			if !ok || (cmp.Op != token.GEQ && cmp.Op != token.GTR) {
+				continue
+			}
+			if phi, ok := cmp.X.(*ssa.Phi); ok && phi.Block() == head {
+				for _, e := range phi.Edges {
+					if bo, ok := e.(*ssa.BinOp); ok && bo.Op == token.SUB && bo.X == ssa.Value(phi) {
+						l, descending = x, true
+					}
+				}
+			}
+		}
+	}
+	if l == nil {
+		c.violate("C12.selection", "loop", f.Pos(), name, "no loop over the prefix table")
 		return
 	}
 	okCond := false
+	fitTruth := true
 	var condPos token.Pos
+	var fitIf *ssa.If
 	for b := range l.Blocks {
 		iff, ok := b.Instrs[len(b.Instrs)-1].(*ssa.If)
 		if !ok || b == l.Head {
@@ -582,8 +606,7 @@ func ruleC12Selection(c *Ctx) {
 		if !ok {
 			continue
 		}
-		condPos = iff.Pos()
-		// w >= 1, w > 0, w != 0 with w = n / p.Multiplier ; or n >= p.Multiplier
+		// w >= 1, w > 0, w != 0 (or negated: w == 0, w < 1) with w = n / p.Multiplier ; or n >= p.Multiplier / n < p.Multiplier
 		isQuot := func(v ssa.Value) bool {
 			q, ok := v.(*ssa.BinOp)
 			if !ok || q.Op != token.QUO || q.X != ssa.Value(n) {
@@ -597,14 +620,50 @@ func ruleC12Selection(c *Ctx) {
 			return len(p) > 0 && p[len(p)-1] == "Multiplier"
 		}
 		k, isK := constUint(cmp.Y)
+		matched := true
 		switch {
 		case isQuot(cmp.X) && isK && ((cmp.Op == token.GEQ && k == 1) || (cmp.Op == token.GTR && k == 0) || (cmp.Op == token.NEQ && k == 0)):
-			okCond = true
+			fitTruth = true
+		case isQuot(cmp.X) && isK && ((cmp.Op == token.EQL && k == 0) || (cmp.Op == token.LSS && k == 1)):
+			fitTruth = false
 		case cmp.X == ssa.Value(n) && isMult(cmp.Y) && cmp.Op == token.GEQ:
-			okCond = true
+			fitTruth = true
+		case cmp.X == ssa.Value(n) && isMult(cmp.Y) && cmp.Op == token.LSS:
+			fitTruth = false
+		default:
+			matched = false
+		}
+		if matched {
+			okCond, condPos, fitIf = true, iff.Pos(), iff
+		} else if condPos == token.NoPos {
+			condPos = iff.Pos()
 		}
 	}
-	if okCond {
+	if okCond && descending {
+		// the fitting edge must leave the loop (first fit from the top = largest fitting prefix)
+		leaves := false
+		if fitIf != nil {
+			cur := fitIf.Block().Succs[0]
+			if !fitTruth {
+				cur = fitIf.Block().Succs[1]
+			}
+			for steps := 0; steps < 6 && cur != nil; steps++ {
+				if !l.Blocks[cur] {
+					leaves = true
+					break
+				}
+				if cur == l.Head || len(cur.Succs) != 1 {
+					break
+				}
+				cur = cur.Succs[0]
+			}
+		}
+		if leaves {
+			c.hold("C12.selection", "keep-last-fitting", condPos, "descending scan stopping at the first prefix whose quotient is >= 1 (the largest not exceeding the value)")
+		} else {
+			c.violate("C12.selection", "keep-last-fitting", condPos, name, "a descending prefix scan must stop at the first fitting prefix; this one goes on to smaller prefixes")
+		}
+	} else if okCond {
 		c.hold("C12.selection", "keep-last-fitting", condPos, "ascending scan keeping every prefix whose quotient is >= 1 (so the last kept is the largest not exceeding the value)")
 	} else {
 		c.violate("C12.selection", "keep-last-fitting", condPos, name, "the prefix loop does not keep a prefix exactly when value/multiplier >= 1")
@@ -839,5 +898,74 @@ func ruleC12Mantissa(c *Ctx) {
 		c.hold("C12.mantissa", "single-division", sp.Pos(), "the formatted number is float64(value)/float64(prefix.Multiplier): one rounding before fmt's own")
 	} else {
 		c.undecided("C12.mantissa", "single-division", sp.Pos(), name, "the number handed to the %.Nf verb is not the single division float64(value)/float64(multiplier of the chosen prefix): a truncated or re-composed mantissa is rounded twice and can be off by more than half a unit in the last digit")
+	}
+}
+
+// ruleC12WholePart: the whole part that selects the number of decimals is
+// value / multiplier of the prefix finally chosen (or the value itself when
+// no prefix applies) — not a quantity scaled some other way.
+func ruleC12WholePart(c *Ctx) {
+	f := c.fn("/counts", "*Humaner", "FormatNumber")
+	if f == nil {
+		return
+	}
+	name := fnName(f)
+	n := f.Params[1]
+	// the value compared with the precision thresholds (constants >= 10)
+	var w ssa.Value
+	allInstrs(f, func(in ssa.Instruction) {
+		cmp, ok := in.(*ssa.BinOp)
+		if !ok || (cmp.Op != token.GEQ && cmp.Op != token.GTR && cmp.Op != token.LSS && cmp.Op != token.LEQ) {
+			return
+		}
+		if k, ok := constUint(cmp.Y); ok && k >= 10 {
+			if _, isLen := cmp.X.(*ssa.Call); !isLen {
+				w = cmp.X
+			}
+		}
+	})
+	if w == nil {
+		c.notDecided("C12.whole-part", "source", f.Pos(), "no comparison of a whole part with a precision threshold found")
+		return
+	}
+	bad := ""
+	seen := map[ssa.Value]bool{}
+	var walk func(v ssa.Value)
+	walk = func(v ssa.Value) {
+		if seen[v] {
+			return
+		}
+		seen[v] = true
+		switch x := v.(type) {
+		case *ssa.Phi:
+			for _, e := range x.Edges {
+				walk(e)
+			}
+		case *ssa.Parameter:
+			if x != n {
+				bad = "the whole part comes from parameter " + x.Name()
+			}
+		case *ssa.BinOp:
+			okQ := false
+			if x.Op == token.QUO && x.X == ssa.Value(n) {
+				if _, p := c.fieldPath(c.resolve(x.Y)); len(p) > 0 && p[len(p)-1] == "Multiplier" {
+					okQ = true
+				}
+				if fld, ok := x.Y.(*ssa.Field); ok && fieldOfVal(fld).Var.Name() == "Multiplier" {
+					okQ = true
+				}
+			}
+			if !okQ {
+				bad = "the whole part is computed as `" + x.String() + "`, not as value / multiplier of a table entry: the number of decimals is chosen from the wrong magnitude (e.g. dividing by 1000 per step is wrong for the 1024-based prefixes)"
+			}
+		default:
+			bad = fmt.Sprintf("the whole part has an unexpected source (%T)", v)
+		}
+	}
+	walk(w)
+	if bad == "" {
+		c.hold("C12.whole-part", "source", w.Pos(), "the whole part is the value itself or value / Multiplier of a table entry on every path")
+	} else {
+		c.violate("C12.whole-part", "source", w.Pos(), name, bad)
 	}
 }
